@@ -54,5 +54,5 @@ OBLIGATIONS = [Obl("rt_long", rt_long, {"shape": I(0, 3), "li": I(0, len(LONG) -
                    shards=[{"shape": C(s_), "li": C(l_)} for s_ in range(4) for l_ in range(len(LONG)) if l_ < 7 or s_ in (0, 3)], budget=150, per_path=100,
                    doc="payload lengths 126..129, 255..257, 65535, 65536 in four shapes; definite/indefinite; maxChunkSize 0/100/1000/2^20")] + [
     entry_obl("rt_ber", rt_ber, e, extra={"defMode": B, "chunk": I(0, 2 ** 31 - 1)})
-    for e in all_entries()
+    for e in all_entries(ber_only=True)
 ]
